@@ -632,6 +632,15 @@ func runC08(tier string, seed uint64) int {
 				return
 			}
 			o.byKind[v.kind]++
+			for _, lf := range append(append(Layout{}, v.lay...), v.lay2...) {
+				if lf.Dress != 0 && !lf.JSON && !lf.List {
+					o.byKind["probe: executions with a dressed file (comment header / doubled separators / CRLF)"]++
+					break
+				}
+			}
+			if strings.HasPrefix(c.name, "gen:") && len(c.docs) > 0 && strings.Contains(c.docs[0].Text+c.docs[len(c.docs)-1].Text, "3scale") {
+				o.byKind["probe: executions in a world with digit-leading namespace names"]++
+			}
 			o.steps += len(steps)
 			for i := range res.Trace.Events {
 				e := &res.Trace.Events[i]
